@@ -57,6 +57,11 @@ def timestampish(fn, e):
 
 
 def run(ctx):
+    _run(ctx)
+    cascade_rule(ctx)
+
+
+def _run(ctx):
     db = ctx.db
     ctx.explanation = (
         "Decides the SQL-shape clause: the four timestamped upserts carry the strict guard `WHERE timestamp < ?k` on the "
@@ -214,3 +219,35 @@ def run(ctx):
                       "policy upsert sets %s.%s to the new value unconditionally or when different" % (table, col),
                       rules.where(fn, bb), detail=" ".join(s.split()), fn=fn)
     ctx.floor("sql:policy", m, 4, "policy upserts")
+
+
+def cascade_rule(ctx):
+    """`routing` and `repo-sync-status` reference `nodes(id)` with ON DELETE CASCADE: deleting a node's row silently deletes
+    its routing entries and sync statuses, after which an *older* timestamp is accepted again (and the local node's entries,
+    which prune must spare, are gone).  So a `DELETE FROM nodes` may be executed from nowhere in the shipped code paths
+    (today: only the unused `address::Store::remove`)."""
+    db = ctx.db
+    holders = []
+    for fn in db.all_fns():
+        if fn["crate"] not in ("radicle", "radicle_node"):
+            continue
+        for bb, t, c in db.calls(fn):
+            nme = c.get("n") or ""
+            if nme.endswith("::prepare") and "sqlite" in nme and len(t[2]) > 1:
+                for s_ in sql.const_strs(fn, t[2][1]):
+                    toks = [x.upper() if x.isalpha() else x for x in sql.tokenize(s_)]
+                    if len(toks) >= 3 and toks[0] == "DELETE" and toks[1] == "FROM" and sql.tokenize(s_)[2].strip('`"') == "nodes":
+                        holders.append((fn, bb))
+    ctx.floor("sql:cascade:delete-from-nodes", len(holders), 1, "statements deleting rows of `nodes` (positive example for the who-may-call rule)")
+    callers = 0
+    for hf, hb in holders:
+        key = db.root_of(hf)["key"]
+        for f, bb in db.call_sites("^" + re.escape(key) + "$"):
+            if db.root_of(f)["key"] == key:
+                continue
+            callers += 1
+            ctx.violated("who:nodes:delete:%s" % cfg.short(db.root_of(f)["key"]),
+                         "%s deletes a row of `nodes`: the routing entries and sync statuses of that node are deleted with it (ON DELETE CASCADE), so "
+                         "their timestamps start over and an older announcement is accepted again" % cfg.short(db.root_of(f)["key"]), rules.where(f, bb), fn=f)
+    if not callers:
+        ctx.ob("who:nodes:delete", "held", "no shipped code path deletes a row of `nodes` (%d DELETE statement(s), no caller)" % len(holders), "", sites=len(holders))
